@@ -17,7 +17,7 @@ ENGINES = [
     {"name": "harness-ebpf", "path": "/verif/harness/ebpf", "serves_properties": ["C03", "C06", "C07"],
      "kind_free_text": "gcc build of the unmodified eBPF C program against shim headers + Rust codec built from ebpf_obj.rs"},
     {"name": "harness-sys", "path": "/verif/harness/sys", "serves_properties": ["C17"],
-     "kind_free_text": "mount-namespace wrapper (overlayfs), fake systemctl, stand-in agent; drives the real proxy_agent_setup"},
+     "kind_free_text": "mount-namespace wrapper (overlayfs per system directory, or chroot into one overlay of the whole root for the same-file-system layout), fake systemctl, stand-in agent; drives the real proxy_agent_setup"},
     {"name": "extra-specs", "path": "/verif/checks/x01_status.py", "serves_properties": [],
      "kind_free_text": "specification coverage beyond the 20 listed properties, same technique and contract: `bin/check X01_STATUS` "
                        "(Status.tla: agent status aggregation/publication, torn-snapshot and lost-add witnesses) and `bin/check "
@@ -46,37 +46,37 @@ CHECKS = {
         "design_ref": "DESIGN.md §3 KeyKeeper.tla (C09)",
     },
     "C12": {
-        "text": "KeySecret.tla is a taint model of every flow of a value obtained from the host's key endpoint (key file, MACs, key-keeper status message -> logs/events/status.json/provision answers, signing errors -> connection log) with the key-directory steps; TLC checks NoLeak and AclBeforeFirstKeyFile for the design with withheld error texts and exhibits the leaking histories of the design that quotes the key. The real key keeper, proxy, status task, event logger and event reader run against a scripted mock WireServer issuing CANARY secrets through every history class of the model (latch, rotation, non-hex key, undeserialisable key reply, local fetch of a bad key, host errors, disable) while clients send proxied requests and /provision queries; every output (log, event, status, tag and rule-dump files, stdout/stderr, every client response, every host request) is scanned for every rendering of every canary and the key-directory system calls are read from strace; TLC validates the sink and fs events against KeySecretTrace.tla. Further: key readers/writers dropped before the actor answers (KeySecret!UndeliveredReply), key documents delivered with a status other than 200, and kill injection at the publishing renames with a private TMPDIR (key material may only be found inside the key directory: KeySecret!CrashDuringStore).",
+        "text": "KeySecret.tla is a taint model of every flow of a value obtained from the host's key endpoint (key file, MACs, key-keeper status message -> logs/events/status.json/provision answers, signing errors -> connection log) with the key-directory steps; TLC checks NoLeak and AclBeforeFirstKeyFile for the design with withheld error texts and exhibits the leaking histories of the design that quotes the key. The real key keeper, proxy, status task, event logger and event reader run against a scripted mock WireServer issuing CANARY secrets through every history class of the model (latch, rotation, non-hex key, undeserialisable key reply, local fetch of a bad key, host errors, disable) while clients send proxied requests and /provision queries; every output (log, event, status, tag and rule-dump files, stdout/stderr, every client response, every host request) is scanned for every rendering of every canary and the key-directory system calls are read from strace; TLC validates the sink and fs events against KeySecretTrace.tla. Further: key readers/writers dropped before the actor answers (KeySecret!UndeliveredReply), key documents delivered with a status other than 200, and kill injection at the publishing renames with a private TMPDIR (key material may only be found inside the key directory: KeySecret!CrashDuringStore). Canaries are searched literally, as hex/base64 of the key bytes and as byte-value lists / hex dumps / base64 of the key TEXT; a key reply with a non-UTF-8 byte is part of the run; the key keeper is also started with a saturated, non-growing blocking pool (ACL before the first key file).",
         "note": "Absence is established for the histories of one scripted run covering the model's classes and for the sinks enumerated; /dev/console cannot be captured here.",
         "technique": "TLA+ taint spec + TLC model checking; canary-secret conformance run on the real tasks; strace ordering; impl->spec trace validation",
         "design_ref": "DESIGN.md §3 C12",
     },
     "C13": {
-        "text": "RobustCut.tla defines the required truncation (total, whole characters, at most N bytes) and TLC enumerates every way up to 6 UTF-8 characters of widths 1-4 can straddle a byte cut; Robust.tla model-checks the service claim (every hostile input class leaves listener and tasks alive, every request answered - liveness). Each cut vector is padded to the real constants and fed to the real truncation sites (event message 4096, module status 1024); the connection-summary cut is reached through real caller processes whose command lines carry 2/3/4-byte characters at all four alignments; obs-text header values, repeated headers, very long URLs are sent to the real server; odd-length UTF-16, long non-ASCII and wrong-content-type replies are served to the real host clients; the log-line header is exercised 2*10^6 times. A process-wide panic hook records every panic; TLC validates the recorded input/outcome events against RobustTrace.tla (no panic, answered, follow-up probe served, status still published). Further: Robust.tla models handlers, actor replies, abandoning clients and the bounded event queue (the designs 'reply must be delivered' and 'evict then push' are told apart by TLC); every client call of every shared-state actor is polled once and dropped (the actor must go on answering); clients that go away with micro-second delays; 1100 requests fill the event queue, then 16 x 300 concurrent requests; every request-target form (CONNECT, OPTIONS *, absolute-form); rule documents with dangling names.",
+        "text": "RobustCut.tla defines the required truncation (total, whole characters, at most N bytes) and TLC enumerates every way up to 6 UTF-8 characters of widths 1-4 can straddle a byte cut; Robust.tla model-checks the service claim (every hostile input class leaves listener and tasks alive, every request answered - liveness). Each cut vector is padded to the real constants and fed to the real truncation sites (event message 4096, module status 1024); the connection-summary cut is reached through real caller processes whose command lines carry 2/3/4-byte characters at all four alignments; obs-text header values, repeated headers, very long URLs are sent to the real server; odd-length UTF-16, long non-ASCII and wrong-content-type replies are served to the real host clients; the log-line header is exercised 2*10^6 times. A process-wide panic hook records every panic; TLC validates the recorded input/outcome events against RobustTrace.tla (no panic, answered, follow-up probe served, status still published). Further: Robust.tla models handlers, actor replies, abandoning clients and the bounded event queue (the designs 'reply must be delivered' and 'evict then push' are told apart by TLC); every client call of every shared-state actor is polled once and dropped (the actor must go on answering); clients that go away with micro-second delays; 1100 requests fill the event queue, then 16 x 300 concurrent requests; every request-target form (CONNECT, OPTIONS *, absolute-form); rule documents with dangling names; replies to the agent's own calls that announce far more (near u64::MAX) than they deliver.",
         "note": "Inputs are the enumerated classes, not all byte strings; the clock-dependent log-header site is covered by repetition; Windows-only code not covered.",
         "technique": "TLA+ spec + TLC (cut-vector enumeration, service model with liveness); spec->impl replay of vectors and input classes; panic hook; impl->spec trace validation",
         "design_ref": "DESIGN.md §3 Robust.tla",
     },
     "C04": {
-        "text": "Canon.tla defines the string to sign on byte sequences; TLC checks over a complete small universe (colliding keys a=bc/ab=c, repeated and mixed-case names, valueless keys, blanks) that it covers every header and every query parameter (Injective, Deterministic). Seeded adversarial requests go through the real proxy and through hyper_client::build_request; the request AS RECEIVED by the mock host is tokenised, TLC (CanonTrace) computes the canonical string, and HMAC-SHA256 with Python's hmac under the key registered for the announced id must equal the header's MAC; exactly one authorization header with the right scheme and key id on non-exempt requests, none added on exempt ones; builder route and parts route compared on the same request. Further: slow uploads (head, pause, body), key rotations while keep-alive connections stay open (MAC under the key latched when relayed), neighbours of the two exempt uploads, requests whose key reply is held for 1.5 s at the H4 gate.",
+        "text": "Canon.tla defines the string to sign on byte sequences; TLC checks over a complete small universe (colliding keys a=bc/ab=c, repeated and mixed-case names, valueless keys, blanks) that it covers every header and every query parameter (Injective, Deterministic). Seeded adversarial requests go through the real proxy and through hyper_client::build_request; the request AS RECEIVED by the mock host is tokenised, TLC (CanonTrace) computes the canonical string, and HMAC-SHA256 with Python's hmac under the key registered for the announced id must equal the header's MAC; exactly one authorization header with the right scheme and key id on non-exempt requests, none added on exempt ones; builder route and parts route compared on the same request. Further: slow uploads (head, pause, body), key rotations while keep-alive connections stay open (MAC under the key latched when relayed), neighbours of the two exempt uploads,  requests whose key reply is held for 1.5 s at the H4 gate, own calls racing a key change (any further key lookup of one call is held while another key is latched: the MAC must be valid under the key the header names), uploads announcing Expect: 100-continue.",
         "note": 'Kernel audit map replaced by the cfg-guarded stand-in (hooks H1/H2); mock hosts in a private netns capture raw bytes.',
         "technique": "TLA+ canonicalisation spec + TLC (model checking and as canonicalisation oracle over captured requests); independent HMAC; spec->impl and impl->spec binding",
         "design_ref": "DESIGN.md §3 Canon.tla",
     },
     "C07": {
-        "text": "SingleUse is model-checked on Proxy.tla with two connections and two ports (lookup and remove as separate steps, every interleaving, close/reopen); every 5-operation history over two connection slots and two source ports printed by SingleUseGen.tla (attributed/direct connects, keep-alive requests, close, immediate REAL source-port reuse) is replayed on the real ProxyServer, plus a concurrent stress run; TLC validates every observed request against SingleUseTrace.tla: relayed only to its own connection's recorded destination with its own identity in the claims header, unattributed connections (incl. reused ports without a fresh record) refused with 421. The kernel half of the statement (a later connection from a source port that still carries an earlier connection's unconsumed record gets its own record) is checked on the real eBPF C program with the directed port-reuse family of C06, judged by EbpfTrace.tla. Consumption is also checked on the REAL kernel audit_map (the tree's eBPF object loaded with BpfObject::from_ebpf_file, nothing attached, the stand-in off): rounds of a kernel-style record write, the real lookup_audit and remove_audit, and a raw probe, while three threads keep rewriting the redirect policy; after every round the record must be gone (PolicyMapTrace.tla P_ConsumedAbsent).",
+        "text": "SingleUse is model-checked on Proxy.tla with two connections and two ports (lookup and remove as separate steps, every interleaving, close/reopen); every 5-operation history over two connection slots and two source ports printed by SingleUseGen.tla (attributed/direct connects, keep-alive requests, close, immediate REAL source-port reuse) is replayed on the real ProxyServer, plus a concurrent stress run; TLC validates every observed request against SingleUseTrace.tla: relayed only to its own connection's recorded destination with its own identity in the claims header, unattributed connections (incl. reused ports without a fresh record) refused with 421. The kernel half of the statement (a later connection from a source port that still carries an earlier connection's unconsumed record gets its own record) is checked on the real eBPF C program with the directed port-reuse family of C06, judged by EbpfTrace.tla. Consumption is also checked on the REAL kernel audit_map (the tree's eBPF object loaded with BpfObject::from_ebpf_file, nothing attached, the stand-in off): rounds of a kernel-style record write, the real lookup_audit and remove_audit, and a raw probe, while three threads keep rewriting the redirect policy; after every round the record must be gone (PolicyMapTrace.tla P_ConsumedAbsent). The accept-time read-then-consume is also held at each of its suspension points (hook H9) for 0.45 / 1.3 s: afterwards the record is gone and a direct connection from that port is unattributed; the kernel side runs two threads of one process between the hooks in both orders.",
         "note": 'Kernel audit map replaced by the cfg-guarded stand-in (hooks H1/H2) for the agent side; the eBPF program runs in the user-space shim for the kernel side; mock hosts in a private netns capture raw bytes.',
         "technique": "TLA+ spec + TLC model checking; TLC-generated histories replayed with real port reuse; impl->spec trace validation",
         "design_ref": "DESIGN.md §3 Proxy.tla (C07)",
     },
     "C10": {
-        "text": "KeyGen.tla (the key actions of Proxy.tla with a history variable) is model-checked in both designs: two actor messages (KeyPairing violated) and one message (holds). A probe using the H4 schedule gate as a counter determines how many key reads each of the four signers (proxied request, goal state, shared config, IMDS) performs; every interleaving TLC prints for that design is forced on the real code through the gate (signer parked at its second read while the keeper rotates/clears the key) and the mock host's capture is verified with an independent HMAC; a stress run (signers x rotating keeper) is validated by TLC against KeyPairTrace.tla (announced id = key that verifies the MAC, id was latched). Further: every authorization header VALUE the host receives is verified (requests that already carry a forged or replayed header), and the real key keeper re-latches against a host that still names a lost key while issuing a fresh one (attestation, own calls and proxied requests must name the key whose secret made the MAC); the signing helper is stressed concurrently with two keys.",
+        "text": "KeyGen.tla (the key actions of Proxy.tla with a history variable) is model-checked in both designs: two actor messages (KeyPairing violated) and one message (holds). A probe using the H4 schedule gate as a counter determines how many key reads each of the four signers (proxied request, goal state, shared config, IMDS) performs; every interleaving TLC prints for that design is forced on the real code through the gate (signer parked at its second read while the keeper rotates/clears the key) and the mock host's capture is verified with an independent HMAC; a stress run (signers x rotating keeper) is validated by TLC against KeyPairTrace.tla (announced id = key that verifies the MAC, id was latched). Further: every authorization header VALUE the host receives is verified (requests that already carry a forged or replayed header), and the real key keeper re-latches against a host that still names a lost key while issuing a fresh one (attestation, own calls and proxied requests must name the key whose secret made the MAC); the signing helper is stressed concurrently with two keys; a keep-alive connection signs across rotations whose keys carry the same incarnation number; a second key is acquired and attested while one is latched.",
         "note": "Hook H4: schedule point at the entry of KeyKeeperSharedState::get_key/set_key. Independent canonicalisation + HMAC in lib/vlib/canon.py.",
         "technique": "TLA+ spec + TLC model checking of both designs; deterministic schedule replay through gates; impl->spec trace validation of a stress run",
         "design_ref": "DESIGN.md §3 Proxy.tla (C10)",
     },
     "C14": {
-        "text": "Relay.tla (per-connection request queue, one request served at a time, one upstream connection behind a mutex, host responses) is model-checked for Order, HostSeesInOrder and AllAnswered (liveness) with two connections x three pipelined requests. Seeded exchanges on concurrent keep-alive connections with pipelining bursts (every method, repeated header names, binary-safe values, bodies 0..100 KiB declared or chunked at random boundaries, responses with random status/headers/bodies declared or chunked in random frames) are captured raw at both ends and compared field by field (bodies by SHA-256); TLC validates the per-exchange facts and the ordering against RelayTrace.tla. Further: host faults after the request was read (no duplicate delivery), uploads abandoned mid-chunk (not relayed as complete), slowly streaming responses under concurrent connections to one endpoint, one-shot exchanges read late through a small receive buffer.",
+        "text": "Relay.tla (per-connection request queue, one request served at a time, one upstream connection behind a mutex, host responses) is model-checked for Order, HostSeesInOrder and AllAnswered (liveness) with two connections x three pipelined requests. Seeded exchanges on concurrent keep-alive connections with pipelining bursts (every method, repeated header names, binary-safe values, bodies 0..100 KiB declared or chunked at random boundaries, responses with random status/headers/bodies declared or chunked in random frames) are captured raw at both ends and compared field by field (bodies by SHA-256); TLC validates the per-exchange facts and the ordering against RelayTrace.tla. Further: host faults after the request was read (no duplicate delivery), uploads abandoned mid-chunk (not relayed as complete), slowly streaming responses under concurrent connections to one endpoint, one-shot exchanges read late through a small receive buffer, targets with two dots inside the query, a host that answers 11.5 s late followed by another request on that connection.",
         "note": 'Kernel audit map replaced by the cfg-guarded stand-in (hooks H1/H2); mock hosts in a private netns capture raw bytes. Framing headers and Date may be regenerated; names compared case-insensitively.',
         "technique": "TLA+ spec + TLC model checking (safety + liveness); raw-capture comparison at both ends; impl->spec trace validation",
         "design_ref": "DESIGN.md §3 Relay.tla",
@@ -94,37 +94,37 @@ CHECKS = {
         "design_ref": 'DESIGN.md §3 Proxy.tla',
     },
     "C05": {
-        "text": "Proxy.tla's OwnedHeaders invariant is model-checked; scenarios carry 0-3 client copies of each owned header in random letter case; the raw header list captured at the mock host is reduced to a census (count of claims/date/authorization headers, whether the value is the proxy's, client copies surviving) and TLC validates P_C05_OwnedHeaders on every relayed request.",
+        "text": "Proxy.tla's OwnedHeaders invariant is model-checked; scenarios carry 0-3 client copies of each owned header in random letter case; the raw header list captured at the mock host is reduced to a census (count of claims/date/authorization headers, whether the value is the proxy's, client copies surviving) and TLC validates P_C05_OwnedHeaders on every relayed request. The clause 'the date is the proxy's current time' is also decided on runs in which the wall clock is stepped forwards and backwards between requests (LD_PRELOAD CLOCK_REALTIME shim; StampTrace.tla P_C05_DateIsCurrent against the host's receipt time read from the same clock).",
         "note": 'Kernel audit map replaced by the cfg-guarded stand-in (hooks H1/H2); mock hosts in a private netns; one request per connection in this pipeline (keep-alive/reuse/concurrency: C07, C14); identity space = OS users root/daemon/bin/nobody and the harness process; rule documents are generated realisations of allow/deny, decided independently by Rbac.tla.',
         "technique": "TLA+ spec (Proxy.tla/Authz.tla/Rbac.tla) + TLC model checking; TLC-generated scenarios replayed on the real ProxyServer; impl->spec trace validation of every observed request",
         "design_ref": 'DESIGN.md §3 Proxy.tla',
     },
     "C11": {
-        "text": "Authz.tla EnforceBlocks/AuditForwards/DisabledIgnoresRules and Proxy.tla Modes/DenialCountedStep are model-checked; the pipeline replays every rule mode x decision x endpoint x caller; TLC validates P_C11_* on every observation: enforce+deny => 403, nothing relayed; audit+deny => relayed intact with the host's status; disabled => rules not consulted; each denial => failed-summary delta exactly 1 under the caller's user/process/command line/destination (read through the agent-status getter before and after the request). Further: the real status task publishes every millisecond while denials are answered (each must be in the file written next), two callers with long command lines differing only near the end, 1000 pre-connected clients firing at once, and a deterministic recording burst on a single-threaded runtime (more than the status actor's mailbox holds).",
+        "text": "Authz.tla EnforceBlocks/AuditForwards/DisabledIgnoresRules and Proxy.tla Modes/DenialCountedStep are model-checked; the pipeline replays every rule mode x decision x endpoint x caller; TLC validates P_C11_* on every observation: enforce+deny => 403, nothing relayed; audit+deny => relayed intact with the host's status; disabled => rules not consulted; each denial => failed-summary delta exactly 1 under the caller's user/process/command line/destination (read through the agent-status getter before and after the request). Further: the real status task publishes every millisecond while denials are answered (each must be in the file written next), two callers with long command lines differing only near the end, 1000 pre-connected clients firing at once, and a deterministic recording burst on a single-threaded runtime (more than the status actor's mailbox holds); the status-file scenario is repeated with fileLogLevel Warn and Error (what is published does not depend on what is logged).",
         "note": 'Kernel audit map replaced by the cfg-guarded stand-in (hooks H1/H2); mock hosts in a private netns; one request per connection in this pipeline (keep-alive/reuse/concurrency: C07, C14); identity space = OS users root/daemon/bin/nobody and the harness process; rule documents are generated realisations of allow/deny, decided independently by Rbac.tla.',
         "technique": "TLA+ spec (Proxy.tla/Authz.tla/Rbac.tla) + TLC model checking; TLC-generated scenarios replayed on the real ProxyServer; impl->spec trace validation of every observed request",
         "design_ref": 'DESIGN.md §3 Proxy.tla',
     },
     "C15": {
-        "text": 'Proxy.tla BodyLimit is model-checked; scenarios place bodies at limit-1/limit/limit+1 and beyond for both limit classes, declared (Content-Length, including a lying declaration above 100 MiB) or chunked, on exempt URLs in random letter case and near-miss non-exempt URLs; TLC validates P_C15_OverRefused (4xx, nothing relayed, zero stray bytes) and P_C15_WithinRelayed (relayed with the whole body, hash compared) on every observation. 100 MiB chunked bodies are sampled in the thorough tier only.',
+        "text": 'Proxy.tla BodyLimit is model-checked; scenarios place bodies at limit-1/limit/limit+1 and beyond for both limit classes, declared (Content-Length, including a lying declaration above 100 MiB) or chunked, on exempt URLs in random letter case and near-miss non-exempt URLs; TLC validates P_C15_OverRefused (4xx, nothing relayed, zero stray bytes) and P_C15_WithinRelayed (relayed with the whole body, hash compared) on every observation. 100 MiB chunked bodies are sampled in the thorough tier only. Uploads (over the limit, exactly the limit) whose body is still arriving when their kept-alive connection is half a minute old are judged by LimitTrace.tla.',
         "note": 'Kernel audit map replaced by the cfg-guarded stand-in (hooks H1/H2); mock hosts in a private netns; one request per connection in this pipeline (keep-alive/reuse/concurrency: C07, C14); identity space = OS users root/daemon/bin/nobody and the harness process; rule documents are generated realisations of allow/deny, decided independently by Rbac.tla.',
         "technique": "TLA+ spec (Proxy.tla/Authz.tla/Rbac.tla) + TLC model checking; TLC-generated scenarios replayed on the real ProxyServer; impl->spec trace validation of every observed request",
         "design_ref": 'DESIGN.md §3 Proxy.tla',
     },
     "C16": {
         "text": "Provision.tla models every actor message of update/reset/timeup/query and the file steps of write_provision_state; TLC checks FinishedOnlyAfter, Answer, ErrorTextExact, QueryTruth, TagAtomic exhaustively; TLC-generated schedules (including every counterexample class found on the original design) are replayed on the real code through the H5 schedule gates and the real HTTP /provision endpoint, and random gated runs plus strace-delayed file races are validated by TLC against the property-level trace spec.",
-        "note": "Schedules are forced with cfg-guarded gates at the entry of the provision actor's client calls; file-step interleavings rely on strace delay injection; no gate between get_state and the channel-state read. status.tag is looked at after every step by a reader that keeps the previously seen file open: same inode with different content, or a change readable through the old descriptor, is an in-place modification (TagInPlace); a status.tag that was seen once and is missing at a later look (also while the publisher is parked at a gate) is a non-atomic replacement (TagVanished). Directed sequential histories (deadline with two subsystems missing, query, one reports, query, ...) compare every error text with what had been reported at that moment without holding any query at a gate; a schedule on which a task neither parks nor returns within 2.5 s is abandoned and counted (stuck_runs), a tool error only if nothing could be replayed. The waiting client of `--status --wait` is a process of Provision.tla (WPoll: every poll names the instant of the first) and is driven for real: provision_query::ProvisionQuery polls the real listener through a capturing forwarder, the key keeper not serving the notification; every request must carry the tick the query was created with (WaitQueryInstant) and the value the client returns is judged by QueryTruth/QueryComplete for that instant.",
+        "note": "Schedules are forced with cfg-guarded gates at the entry of the provision actor's client calls; file-step interleavings rely on strace delay injection; no gate between get_state and the channel-state read. status.tag is looked at after every step by a reader that keeps the previously seen file open: same inode with different content, or a change readable through the old descriptor, is an in-place modification (TagInPlace); a status.tag that was seen once and is missing at a later look (also while the publisher is parked at a gate) is a non-atomic replacement (TagVanished). Directed sequential histories (deadline with two subsystems missing, query, one reports, query, ...) compare every error text with what had been reported at that moment without holding any query at a gate; a schedule on which a task neither parks nor returns within 2.5 s is abandoned and counted (stuck_runs), a tool error only if nothing could be replayed. The waiting client of `--status --wait` is a process of Provision.tla (WPoll: every poll names the instant of the first) and is driven for real: provision_query::ProvisionQuery polls the real listener through a capturing forwarder, the key keeper not serving the notification; every request must carry the tick the query was created with (WaitQueryInstant) and the value the client returns is judged by QueryTruth/QueryComplete for that instant. The error text (query answers and status.tag, xml-escaped there) is also exercised with module status messages of 900..1100 bytes, ASCII and multi-byte with the agent status cut inside a character, for every subset of not-ready subsystems; each line must be exactly the prefix plus the message as the agent status hands it out.",
         "technique": "TLA+ spec + TLC model checking; deterministic schedule replay through gates; impl->spec trace validation",
         "design_ref": "DESIGN.md §3 Provision.tla",
     },
     "C17": {
-        "text": "Setup.tla models each setup command as the step sequence of the tool (stop, copies, unit, systemctl calls, backup deletion) with no bound on command sequences; TLC checks RoundTrip, StopBeforeReplace, InstallExact, RestoreNoBackupIsNoop, UninstallPackageRemoves, PurgeOnlyBackup, Frame on the whole graph; every generated behaviour (all 3-command sequences from all initial states plus a 4th command; thorough: all 4-command and sampled 5-command ones) is executed with the real release-built proxy_agent_setup in a private mount namespace (overlayfs over /etc,/usr,/var..., logging fake systemctl) comparing file hashes after every command, and the observations are validated by TLC against the trace spec.",
-        "note": "The fake systemctl always succeeds; ordering evidence comes from its call-time snapshots (strace on a seeded subset). Windows paths not covered.",
+        "text": "Setup.tla models each setup command as the step sequence of the tool (stop, copies, unit, systemctl calls, backup deletion) with no bound on command sequences; TLC checks RoundTrip, StopBeforeReplace, InstallExact, RestoreNoBackupIsNoop, UninstallPackageRemoves, PurgeOnlyBackup, Frame on the whole graph; every generated behaviour (all 3-command sequences from all initial states plus a 4th command; thorough: all 4-command and sampled 5-command ones) is executed with the real release-built proxy_agent_setup in a private mount namespace (overlayfs over /etc,/usr,/var..., logging fake systemctl) comparing file hashes after every command, and the observations are validated by TLC against the trace spec. The file-system layout is an environment dimension (Setup.tla constant SameFs, lnk = backup file and live file are one inode): every behaviour is replayed twice, with the tool's folder on another mount than /etc and /usr (link/rename into the system directories fail with EXDEV) and chroot-ed into one overlay of the whole root with the tool's folder under /var/lib/waagent, where link(2) from Backup/Package into all four system directories is proven to succeed before any replay; TLC shows that the design's graph is the same for both values (BackupIsSeparate) and must reject the design variant 'backup by hard link + in-place overwrite' when SameFs (RoundTrip) while accepting it when every link fails.",
+        "note": "The fake systemctl always succeeds; ordering evidence comes from its call-time snapshots (strace on a seeded subset). Windows paths not covered. Mixed layouts (/etc and /usr on different file systems) are not run; overlayfs with a tmpfs upper layer stands for the VM's root file system.",
         "technique": "TLA+ spec + TLC model checking; exhaustive spec->impl replay on the real binary; impl->spec trace validation",
         "design_ref": "DESIGN.md §3 Setup.tla",
     },
     "C18": {
-        "text": "Telemetry.tla follows process_events_and_clean/send_events/send_data_to_wire_server; TLC checks AtMostOneBatch, BatchBounded, OversizeDropped, NotBlocked, FilesRemoved and Terminates (liveness, weak fairness, every failure pattern); generated file sets and failure patterns are replayed into the real EventReader against mock hosts on the real endpoints (paused clock), every POSTed body is parsed with an independent XML parser (expat), sizes/batch membership/text integrity recovered, and the observed batch sequence is validated by TLC against the trace spec.",
+        "text": "Telemetry.tla follows process_events_and_clean/send_events/send_data_to_wire_server; TLC checks AtMostOneBatch, BatchBounded, OversizeDropped, NotBlocked, FilesRemoved and Terminates (liveness, weak fairness, every failure pattern); generated file sets and failure patterns are replayed into the real EventReader against mock hosts on the real endpoints (paused clock), every POSTed body is parsed with an independent XML parser (expat), sizes/batch membership/text integrity recovered, and the observed batch sequence is validated by TLC against the trace spec. Failure kinds: 503/500/400/429, reset, close; one case per kind of a host that fails every post for good (processing must still terminate and remove its files).",
         "note": "Envelope/per-event overhead calibrated from a real document; 'same batch retried' = byte-identical POST; failure kinds 4xx/5xx/reset/close.",
         "technique": "TLA+ spec + TLC model checking (safety + liveness); spec->impl replay; independent XML oracle; impl->spec trace validation",
         "design_ref": "DESIGN.md §3 Telemetry.tla",
@@ -197,9 +197,20 @@ CHECKS = {
                 "histories recorded from the real objects are validated by TLC against the property-level trace specs. "
                 "The monitor loop's own report (service_main.rs report_proxy_agent_aggregate_status, hook H8) is driven "
                 "poll by poll in a private mount namespace with the agent's status file refreshed / unchanged / missing / "
-                "of another version / unreadable before each poll, and validated by the same trace spec.",
+                "of another version / unreadable before each poll, and validated by the same trace spec. "
+                "HealthLoop.tla puts the automaton into the loop (current sequence number, one <seq>.status document per "
+                "number, the enable handler writing 'transitioning' into the new file on a sequence-number change); TLC checks "
+                "that after every completed poll the file of the CURRENT number is that poll's report, and rejects the designs "
+                "that skip the write while the report is unchanged (memo not keyed by the number; keyed, with two changes "
+                "between polls). The REAL monitor_thread (hook H10) runs under tokio's paused clock next to a driver that "
+                "rewrites / removes the agent's status file and performs the handler's sequence-number change between polls "
+                "(directed, every 3-poll history over 9 step kinds, seeded random; ~800 histories quick); all <seq>.status "
+                "files are read back after every poll and TLC decides them against HealthLoopTrace.tla (file of the current "
+                "number = the loop's document carrying this poll's observation, its status obeying the hysteresis).",
         "note": "Trusts TLC, the transcription of C20 into Health.tla/HealthRate.tla invariants, determinism of the two "
-                "objects. The rate limiter's wiring constant MAX_STATE_COUNT is private; exercised at 120.",
+                "objects. The rate limiter's wiring constant MAX_STATE_COUNT is private; exercised at 120. The loop runs in "
+                "harness/sys/ns_enter.sh (overlayfs over /usr /var /etc ...) with stand-ins for the setup tool and both agent "
+                "executables (equal versions, so no install step); the clock between polls is tokio's paused clock.",
         "technique": "TLA+ spec + TLC exhaustive model checking; spec->impl transition-cover replay; impl->spec trace validation",
         "design_ref": "DESIGN.md §3 Health.tla",
     },
